@@ -13,12 +13,14 @@ Zones are persistent values: the copy-on-write of `WritableVersion` is modelled 
 node map `Txn.zone` is replaced only by a commit.  Node keys are names up to ASCII case (`Name.__eq__`/`__hash__`),
 represented by their lower-cased form.  Nothing here depends on the order of a node map.
 
-Two decision points of the unchanged tree are parameters (DESIGN §6, D09/D10); `false` is the intended behaviour:
-* `Cfg.d09` – `dns.zone.WritableVersion.delete_rdataset` removes the emptied node with `del self.nodes[name]`
-  using the name *as given* instead of the validated name (plain and versioned zones; the B-tree version class
-  uses the validated name);
-* `Cfg.d10` – `Transaction._add` compares the name *as given* with the effective origin for the
-  "SOA only at the origin" rule.
+Three decision points are parameters; `false` is the intended behaviour:
+* `Cfg.d09` – LEGACY (before repair 48a5b1a; the code no longer does this): `dns.zone.WritableVersion.delete_rdataset`
+  removed the emptied node with `del self.nodes[name]` using the name *as given* instead of the validated name;
+* `Cfg.d10` – LEGACY (before repair 32c445c): `Transaction._add` compared the name *as given* with the effective
+  origin for the "SOA only at the origin" rule;
+* `Cfg.gn` – as shipped today: `Transaction.get_node` has no `_check_ended()`, so an ended transaction still answers it.
+The harness drives the model with `d09 = d10 = false` always (the legacy variants are retained only for the
+counter-example theorems) and with `gn` as probed on the working tree.
 -/
 namespace Model.ZT
 open Model
@@ -38,6 +40,7 @@ structure Cfg where
   rdclass : Nat
   d09 : Bool
   d10 : Bool
+  gn : Bool := false
   deriving Repr
 
 abbrev Nodes := List (Name × Node)
@@ -149,12 +152,19 @@ inductive Arg where
   | other
   deriving Repr
 
+/-- the flat finite map of the reference model: `(owner, type, covers) ↦ rdataset` -/
+abbrev Key := Name × Nat × Nat
+abbrev SZone := List (Key × Rdataset)
+
 inductive Out where
   | unit
   | rds (r : Option Rdataset)
   | bool (b : Bool)
   | flag (b : Bool)       -- `changed()`
-  | nodes (v : Nodes)     -- `iterate_names()` / `iterate_rdatasets()`
+  | nodes (v : Nodes)     -- `iterate_names()` / `iterate_rdatasets()` of the model of the code
+  | node (k : Name) (nd : Option Node)       -- `get_node()` of the model of the code (validated key, node)
+  | szone (z : SZone)     -- iteration in the reference model
+  | snode (k : Name) (zs : Option SZone)     -- `get_node()` in the reference model: the owner's entries
   deriving Repr
 
 abbrev Res := Except Err Out
@@ -367,6 +377,7 @@ inductive Op where
   | updateSerial (value : Int) (relative : Bool) (name : Name) (veto : Bool)
   | get (name : Name) (t c : Nat)
   | nameExists (name : Name)
+  | getNode (name : Name)
   | changed
   | dump
   | commit
@@ -402,6 +413,12 @@ def step (cfg : Cfg) (s : Txn) (op : Op) : Txn × Res :=
     else match getNode cfg s.ver name with
       | .error e => (s, .error e)
       | .ok nd => (s, .ok (.bool nd.isSome))
+  | .getNode name =>
+    -- `Transaction.get_node` : no `_check_ended()` as shipped (`cfg.gn`)
+    if s.ended ∧ !cfg.gn then (s, .error .alreadyEnded)
+    else match validateName cfg name with
+      | .error e => (s, .error e)
+      | .ok key => (s, .ok (.node key (nodesGet s.ver key)))
   | .changed =>
     if s.ended then (s, .error .alreadyEnded)
     else (s, .ok (.flag (if s.readOnly then false else s.changed)))
@@ -422,9 +439,6 @@ def exitTxn (s : Txn) (exc : Bool) : Txn :=
   if s.ended then s else (endTxn s (!exc)).1
 
 /-! ## the reference model: a flat finite map `(owner, type, covers) ↦ rdataset` -/
-
-abbrev Key := Name × Nat × Nat
-abbrev SZone := List (Key × Rdataset)
 
 namespace SZone
 
@@ -450,6 +464,9 @@ def delRds (z : SZone) (n : Name) (t c : Nat) : SZone := z.filter (fun e => deci
 
 def delName (z : SZone) (n : Name) : SZone := z.filter (fun e => decide (e.1.1 ≠ n))
 
+/-- the entries of one owner -/
+def atName (z : SZone) (n : Name) : SZone := z.filter (fun e => decide (e.1.1 = n))
+
 end SZone
 
 /-- the operations of the reference model, over canonical arguments -/
@@ -460,8 +477,10 @@ inductive SOp where
   | updateSerial (value : Int) (relative : Bool) (n : Name) (veto : Bool)
   | get (n : Name) (t c : Nat)
   | nameExists (n : Name)
+  | getNode (n : Name)
   | fail (e : Err)          -- a call whose argument list is malformed: raises, no effect
-  | skip                    -- `changed()` / iteration: no effect (their values are compared by the tie only)
+  | changed
+  | dump
   | commit
   | rollback
   deriving Repr
@@ -469,15 +488,16 @@ inductive SOp where
 structure STxn where
   zone : SZone
   ver : SZone
+  touched : Bool      -- some store / deletion went through (what `changed()` reports)
   readOnly : Bool
   ended : Bool
   deriving Repr
 
-def sBeginWrite (z : SZone) : STxn := { zone := z, ver := z, readOnly := false, ended := false }
-def sBeginRead (z : SZone) : STxn := { zone := z, ver := z, readOnly := true, ended := false }
+def sBeginWrite (z : SZone) : STxn := { zone := z, ver := z, touched := false, readOnly := false, ended := false }
+def sBeginRead (z : SZone) : STxn := { zone := z, ver := z, touched := false, readOnly := true, ended := false }
 
-/-- the reference model never looks at `d09`/`d10`: it is the intended behaviour -/
-def specCfg (cfg : Cfg) : Cfg := { cfg with d09 := false, d10 := false }
+/-- the reference model never looks at the decision points: it is the intended behaviour -/
+def specCfg (cfg : Cfg) : Cfg := { cfg with d09 := false, d10 := false, gn := false }
 
 /-- store an rdataset (class, origin-SOA and surplus-argument checks in the order the API reports them) -/
 def sPut (cfg : Cfg) (t : STxn) (n : Name) (r : Rdataset) (extra merge veto : Bool) : STxn × Res :=
@@ -494,7 +514,7 @@ def sPut (cfg : Cfg) (t : STxn) (n : Name) (r : Rdataset) (extra merge veto : Bo
             | some e => e.union r
             | none => r
           else r
-        ({ t with ver := t.ver.put k r' }, .ok .unit)
+        ({ t with ver := t.ver.put k r', touched := true }, .ok .unit)
 
 def sDelete (cfg : Cfg) (t : STxn) (n : Name) (sel : Sel) (exact veto : Bool) : STxn × Res :=
   let delAll : STxn × Res :=
@@ -503,7 +523,7 @@ def sDelete (cfg : Cfg) (t : STxn) (n : Name) (sel : Sel) (exact veto : Bool) : 
     | .ok k =>
       if exact ∧ !t.ver.has k then (t, .error .deleteNotExact)
       else if veto then (t, .error .veto)
-      else ({ t with ver := t.ver.delName k }, .ok .unit)
+      else ({ t with ver := t.ver.delName k, touched := t.touched || t.ver.has k }, .ok .unit)
   match sel with
   | .all => delAll
   | .type ty c =>
@@ -512,7 +532,8 @@ def sDelete (cfg : Cfg) (t : STxn) (n : Name) (sel : Sel) (exact veto : Bool) : 
     | .ok k =>
       match t.ver.get (k, ty, c) with
       | none => if exact then (t, .error .deleteNotExact) else (t, .ok .unit)
-      | some _ => if veto then (t, .error .veto) else ({ t with ver := t.ver.delRds k ty c }, .ok .unit)
+      | some _ =>
+        if veto then (t, .error .veto) else ({ t with ver := t.ver.delRds k ty c, touched := true }, .ok .unit)
   | .rds r =>
     if r.items.length = 0 then delAll
     else if r.rdclass ≠ cfg.rdclass then (t, .error .valueError)
@@ -526,8 +547,8 @@ def sDelete (cfg : Cfg) (t : STxn) (n : Name) (sel : Sel) (exact veto : Bool) : 
           else if veto then (t, .error .veto)
           else
             let d := e.difference r
-            if d.items.length = 0 then ({ t with ver := t.ver.delRds k d.rdtype d.covers }, .ok .unit)
-            else ({ t with ver := t.ver.put k d }, .ok .unit)
+            if d.items.length = 0 then ({ t with ver := t.ver.delRds k d.rdtype d.covers, touched := true }, .ok .unit)
+            else ({ t with ver := t.ver.put k d, touched := true }, .ok .unit)
 
 def sEnd (t : STxn) (commit : Bool) : STxn × Res :=
   if t.ended then (t, .error .alreadyEnded)
@@ -541,7 +562,14 @@ def sStep (cfg : Cfg) (t : STxn) (op : SOp) : STxn × Res :=
   | .rollback => sEnd t false
   | .fail e =>
     if t.ended then (t, .error .alreadyEnded) else if t.readOnly then (t, .error .readOnly) else (t, .error e)
-  | .skip => if t.ended then (t, .error .alreadyEnded) else (t, .ok .unit)
+  | .changed =>
+    if t.ended then (t, .error .alreadyEnded) else (t, .ok (.flag (if t.readOnly then false else t.touched)))
+  | .dump => if t.ended then (t, .error .alreadyEnded) else (t, .ok (.szone t.ver))
+  | .getNode n =>
+    if t.ended then (t, .error .alreadyEnded)
+    else match validateName cfg n with
+      | .error e => (t, .error e)
+      | .ok k => (t, .ok (.snode k (if t.ver.has k then some (t.ver.atName k) else none)))
   | .add n r extra veto =>
     if t.ended then (t, .error .alreadyEnded) else if t.readOnly then (t, .error .readOnly)
     else sPut cfg t n r extra true veto
@@ -600,8 +628,9 @@ def toSOp : Op → SOp
   | .updateSerial v rel n veto => .updateSerial v rel n veto
   | .get n t c => .get n t c
   | .nameExists n => .nameExists n
-  | .changed => .skip
-  | .dump => .skip
+  | .getNode n => .getNode n
+  | .changed => .changed
+  | .dump => .dump
   | .commit => .commit
   | .rollback => .rollback
 
